@@ -36,7 +36,7 @@ def cases(tier, seed):
     base4 = ["index.wtml", "L0X0Y0.png", "L1X0Y0.png", "thumb.jpg"]
     perms = list(itertools.permutations(base4))
     for i in range(0, len(perms), 4):
-        for kind in ("exception", "crash"):
+        for kind in ("exception", "crash", "transient"):
             out.append(dict(images={"img1": base4}, perms=[list(p) for p in perms[i:i + 4]], kind=kind, seed=R.randrange(1 << 30)))
     names = ["index.wtml", "L0X0Y0.png", "L1X0Y0.png", "L1X1Y0.png", "thumb.jpg", "a_first.txt", "zz_last.bin", "index_rel.wtml", "Index.wtml"]
     nextra = 20 if tier == "quick" else 300
@@ -49,7 +49,7 @@ def cases(tier, seed):
             if R.random() < 0.8:
                 fs[R.randrange(len(fs))] = "index.wtml"
             images["img%d" % k] = fs
-        out.append(dict(images=images, perms=None, nperm=3 if tier == "quick" else 6, kind=R.choice(["exception", "crash"]), seed=R.randrange(1 << 30)))
+        out.append(dict(images=images, perms=None, nperm=3 if tier == "quick" else 6, kind=R.choice(["exception", "crash", "transient"]), seed=R.randrange(1 << 30)))
     if tier == "thorough":
         for files in (names[:5], names[:6]):
             perms = list(itertools.permutations(files))
@@ -70,6 +70,8 @@ def setup(workdir, images, n):
     os.makedirs(work)
     os.makedirs(store)
     LocalPipelineIo(store).save_config(os.path.join(work, "toasty-store-config.yaml"))
+    with open(os.path.join(store, "toasty-pipeline-config.yaml"), "w") as fh:
+        fh.write("source_type: _verif_fake\nfakesrc:\n  ids: [%s]\n" % ", ".join(sorted(images)))
     for img, files in images.items():
         ap = os.path.join(work, "approved", img)
         os.makedirs(ap)
@@ -105,6 +107,9 @@ def run_publish(work, store, order, img_order, fault, kind, calls_path):
         def fail():
             if kind == "crash":
                 os._exit(9)
+            if kind == "transient":
+                # an ordinary, transient I/O error of the store (connection drop): only this one call fails
+                raise OSError("injected transient store error")
             raise Crash()
 
         def put(*path, source=None):
@@ -153,8 +158,66 @@ def run_publish(work, store, order, img_order, fault, kind, calls_path):
     try:
         body()
         return "ok"
-    except Crash:
+    except (Crash, OSError):
         return "fault"
+
+
+def real_refresh(work, store, images, probs, label):
+    """run the real `toasty pipeline refresh` with an image source that offers exactly our images: a partially published
+    image must be offered for processing again (a candidate file is saved for it), never counted as already done"""
+    import argparse
+    import contextlib
+
+    from toasty import pipeline
+    from toasty.pipeline import cli as pcli
+
+    class Cand(pipeline.CandidateInput):
+        def __init__(self, i):
+            self.i = i
+
+        def get_unique_id(self):
+            return self.i
+
+        def save(self, stream):
+            stream.write(b"candidate")
+
+    class Src(pipeline.ImageSource):
+        ids = []
+
+        @classmethod
+        def get_config_key(cls):
+            return "fakesrc"
+
+        @classmethod
+        def deserialize(cls, data):
+            inst = cls()
+            inst.ids = list(data["ids"])
+            return inst
+
+        def query_candidates(self):
+            for i in self.ids:
+                yield Cand(i)
+
+        def fetch_candidate(self, unique_id, cand_data_stream, cachedir):
+            pass
+
+        def process(self, unique_id, cand_data_stream, cachedir, builder):
+            pass
+
+    pipeline.IMAGE_SOURCE_CLASS_LOADERS["_verif_fake"] = lambda: Src
+    shutil.rmtree(os.path.join(work, "candidates"), ignore_errors=True)
+    with contextlib.redirect_stdout(io.StringIO()):
+        pcli.refresh_impl(argparse.Namespace(workdir=work))
+    n = 0
+    for img, files in images.items():
+        sdir = os.path.join(store, img)
+        # the statement is about the OTHER files of the image (index.wtml itself may be the transfer that was interrupted)
+        complete = all(os.path.exists(os.path.join(sdir, f)) and open(os.path.join(sdir, f), "rb").read() == content(img, f) for f in files if f != "index.wtml")
+        offered = os.path.exists(os.path.join(work, "candidates", img))
+        n += 1
+        if not complete and not offered and "index.wtml" in files:
+            probs.append(("refresh-skipped-partial-image", "%s: `pipeline refresh` skipped %s as already done although the store lacks or truncates some of its files" % (label, img)))
+    return n
 
 
 def check_state(work, store, images, calls, outcome, faulted_img, probs, label):
@@ -235,6 +298,8 @@ def run_case(spec, workdir):
                     # image that owns the k-th put
                     faulted = calls[fault[1]].split("/")[0] if len(calls) > fault[1] else None
             check_state(work, store, images, calls, outcome, faulted, probs, label)
+            if n % 3 == 0 or fault is None:
+                counters["real_refresh_decisions"] += real_refresh(work, store, images, probs, label)
             counters["fault_cases"] += 1
             counters["faults_" + (fault[0] + ("_" + fault[2] if fault and fault[0] == "put" else "") if fault else "none")] += 1
             # recovery
